@@ -43,8 +43,14 @@ type layoutSpec struct {
 	// Write: the ingestion history that delivers the points to this layout (nil: the canonical requests, each decoded
 	// into a batch object of its own; see stored_test.go)
 	Write *writeSpec `json:"write,omitempty"`
+	// IDs: shard -> id plan (containers_test.go): right before the j-th block written into the shard the series sequence
+	// of the block's metrics moves to the j-th jump
+	IDs map[int][]idJump `json:"ids,omitempty"`
 
-	db      string // logical database name; node i is the database db@n<i>
+	idStep     map[int]int    // shard -> blocks written so far
+	containers map[string]int // "metric/shard" -> roaring containers of the metric's series ids there (read back)
+	seriesIn   map[string]int // "metric/shard" -> series
+	db         string // logical database name; node i is the database db@n<i>
 	shardOf []int  // series -> shard (production routing)
 	nodeOf  []int  // series -> node
 	// requests written through a pooled batch object: it held more rows before / held rows before / never held a row
@@ -55,6 +61,9 @@ func (l *layoutSpec) String() string {
 	s := fmt.Sprintf("shards=%d nodes=%v", l.Shards, l.Nodes)
 	if l.Write != nil {
 		s += fmt.Sprintf(" write=%+v", *l.Write)
+	}
+	if l.IDs != nil {
+		s += fmt.Sprintf(" ids=%v containers(metric/shard)=%v", l.IDs, l.containers)
 	}
 	return s
 }
@@ -292,11 +301,19 @@ func (e *env) build(idx int, l *layoutSpec) {
 		// metadata workers, C09) is written again under a new name.
 		e.retries++
 		if attempt >= 3 {
+			if l.IDs != nil {
+				t.Fatalf("C12 violated: a node of a layout whose shards hold the series of a metric in several roaring containers (series id plan) answers differently from the naive model of the rows routed to it, the reference layout (ids 0, 1, 2, ...) reads back fine (layout written %d times, every time)\nlayout: %s\n%s\ndata: %+v", attempt+1, l, bad, d)
+			}
 			t.Fatalf("a single node of layout %s answers differently from the naive model of the rows routed to it (layout written %d times, every time): %s\ndata: %+v", l, attempt+1, bad, d)
 		}
 	}
 	e.nc.SetLayout(l.db, e.opt, l.layoutMap(-1))
 	e.xc.SetLayout(l.db, e.opt, l.layoutMap(-1))
+	if l.IDs != nil {
+		if err := e.readIDs(l); err != nil {
+			t.Fatalf("harness: series id plan of layout %s: %v", l, err)
+		}
+	}
 }
 
 // nodeOfShard: the node of the layout that holds the shard (-1: none).
@@ -323,6 +340,7 @@ func (e *env) writeRequests(l *layoutSpec) error {
 		reqs, pooled = l.Write.Requests, l.Write.Pooled
 	}
 	blocks := make([][]routed, len(reqs))
+	l.idStep = nil
 	route := func() error {
 		if pooled {
 			defer isolatePool()()
@@ -387,6 +405,11 @@ func (e *env) writeRequests(l *layoutSpec) error {
 			}
 		}
 		for _, r := range blocks[ri] {
+			if l.IDs != nil {
+				if err := e.applyIDJump(l, rq, r); err != nil {
+					return fmt.Errorf("harness: series id plan: %v", err)
+				}
+			}
 			if err := writeBlock(e.n, fmt.Sprintf("%s@n%d", l.db, l.nodeOfShard(int(r.shard))), r); err != nil {
 				return fmt.Errorf("harness: write: %v", err)
 			}
@@ -696,6 +719,9 @@ type caseBudget struct {
 	// skewFields: under one of the layouts a node never saw some fields of the first metric, statements are mostly
 	// `select * ... group by` (TestGroupByFieldsANodeNeverSaw)
 	skewFields bool
+	// containers: shards get series id plans, so that the series of a metric in one shard span several roaring
+	// containers (TestSeriesIDContainers, containers_test.go)
+	containers bool
 }
 
 func runCase(t *rapid.T, group string, b caseBudget) {
@@ -704,8 +730,18 @@ func runCase(t *rapid.T, group string, b caseBudget) {
 	// layout keeps its rows in the memory databases.
 	layouts := []*layoutSpec{{Shards: 1, Nodes: [][]int{{0}}}}
 	nl := rapid.IntRange(2, b.layouts).Draw(t, "nLayouts")
+	if b.containers {
+		// the sharding of the reference, another id space
+		l := &layoutSpec{Shards: 1, Nodes: [][]int{{0}}}
+		genIDPlan(t, l, true)
+		layouts = append(layouts, l)
+	}
 	for i := 0; i < nl; i++ {
-		layouts = append(layouts, genLayout(t))
+		l := genLayout(t)
+		if b.containers {
+			genIDPlan(t, l, false)
+		}
+		layouts = append(layouts, l)
 	}
 	mode := modeDefault
 	switch {
@@ -966,6 +1002,7 @@ func (e *env) runLayout(q *querySpec, sql string, m *modelOut, ref node.Result, 
 		classes = append(classes, "layout:a-shard-holds-only-series-without-the-group-key-next-to-a-shard-with")
 	}
 	classes = append(classes, l.storedClasses(e.d, q)...)
+	classes = append(classes, l.idClasses(q)...)
 	if n := l.lateFieldGroups(e.d, q); n > 0 {
 		// every delivery order is run: in some of them the answer of the node without the field is merged first
 		classes = append(classes, "fields:select-*-group-by:node-without-a-field-shares-groups-with-nodes-that-have-it="+bucket(n, 2, 3, 5))
@@ -1168,6 +1205,18 @@ func (e *env) runLayout(q *querySpec, sql string, m *modelOut, ref node.Result, 
 		}
 	}
 
+	// (1c) a storage node does not answer before the deadline of the request (hung or slow node, lost response) while
+	// every other node's answer has been handled by the root: the nodes that answered in time are a matter of the
+	// schedule, so the query must fail (timeout) instead of answering from them. The deadline is owned by the harness
+	// (waitingCtx.fire), it passes when the other responses have been handled.
+	if nLeaves >= 2 && nData > 0 {
+		e.withheldResponses(q, sql, l, names, kinds, dataJSON, false)
+		if len(q.GroupBy) > 0 {
+			// the same one level down: the intermediate node of a group-by plan waits for the leaf responses
+			e.withheldResponses(q, sql, l, names, kinds, dataJSON, true)
+		}
+	}
+
 	// (2) the same through sim/node's cluster (production pool of one worker at the root) for the
 	// reversed order and one more generated order
 	if nLeaves >= 2 {
@@ -1280,6 +1329,95 @@ func (e *env) runLayout(q *querySpec, sql string, m *modelOut, ref node.Result, 
 		mscheds = append(mscheds, schedPicks[nLeaves][0])
 	}
 	e.runScheduled(q, sql, m, ref, l, mscheds, "mid0:1", []string{"mid0:1"}, kinds, nData, classes, dataJSON, fail)
+}
+
+// withheldResponses: see (1c) of runLayout. Victims: the first node with data, the last node with data, the first node
+// without data (empty or not-found answer: the root cannot know that), each with the other responses handed over in
+// send order; the withheld response is lost, or arrives when the query is over (alternating).
+func (e *env) withheldResponses(q *querySpec, sql string, l *layoutSpec, names []string, kinds map[string]string, dataJSON string, viaMid bool) {
+	t := e.t
+	var withData, without []string
+	for _, name := range names {
+		if kinds[name] == "data" {
+			withData = append(withData, name)
+		} else {
+			without = append(without, name)
+		}
+	}
+	type pick struct{ victim, what string }
+	picks := []pick{{withData[0], "first-node-with-data"}}
+	if len(withData) > 1 {
+		picks = append(picks, pick{withData[len(withData)-1], "last-node-with-data"})
+	}
+	if len(without) > 0 {
+		picks = append(picks, pick{without[0], "node-without-data(" + kinds[without[0]] + ")"})
+	}
+	waiter, level := "root:1", "root"
+	if viaMid {
+		waiter, level = "mid0:1", "intermediate"
+		picks = picks[:1+e.seq%2] // one or two of them
+	}
+	for pi, p := range picks {
+		late := pi%2 == 1
+		e.xc.Compute, e.xc.Order, e.xc.AfterPlan = nil, nil, true
+		if viaMid {
+			e.xc.Compute = []string{"mid0:1"}
+		}
+		e.xc.mu.Lock()
+		e.xc.Withhold, e.xc.Late = map[string]bool{p.victim: true}, late
+		e.xc.mu.Unlock()
+		rs, err := e.xc.Query("root:1", l.db, sql)
+		obs := e.xc.observed()
+		e.xc.mu.Lock()
+		stuck := append([]string(nil), e.xc.Stuck...)
+		panics := append([]string(nil), e.xc.Panics...)
+		e.xc.Withhold, e.xc.Late = nil, false
+		e.xc.mu.Unlock()
+		e.xc.AfterPlan, e.xc.Compute = false, nil
+		if len(stuck) > 0 {
+			t.Fatalf("harness: %v", stuck)
+		}
+		if len(panics) > 0 {
+			t.Fatalf("panic while the root handled a response (one response withheld until the deadline)\nquery: %s\nlayout: %s\n%s", sql, l, panics[0])
+		}
+		handledData, handled := 0, 0
+		for _, o := range obs {
+			if o.Receiver != waiter {
+				continue
+			}
+			if o.From == p.victim {
+				if !late {
+					t.Fatalf("harness: the withheld response of %s was handed over: %+v", p.victim, obs)
+				}
+				continue
+			}
+			handled++
+			if o.kind() == "data" {
+				handledData++
+			}
+		}
+		if handled != len(names)-1 {
+			t.Fatalf("harness: %d of %d other responses were handed to the root before the deadline: %+v", handled, len(names)-1, obs)
+		}
+		if err == nil {
+			t.Fatalf("C12 violated: storage node %s (%s) did not answer before the deadline of the request (waiting node: %s), the query returned an answer built from the nodes that did instead of an error\nquery:    %s\nlayout:   %s\nresponses handled before the deadline: %d (%d with data); the withheld one %s\nresponses: %+v\nanswer:\n%sdata: %s",
+				p.victim, kinds[p.victim], waiter, sql, l, handled, handledData, map[bool]string{true: "arrived after the query had returned", false: "never arrived"}[late], obs, node.Canon(rs), dataJSON)
+		}
+		ev.Class(e.group, "deadline:waiting-node="+level, 1)
+		ev.Class(e.group, "deadline:withheld="+p.what, 1)
+		ev.Class(e.group, "deadline:withheld-response-"+map[bool]string{true: "arrives-after-the-query-returned", false: "is-lost"}[late], 1)
+		switch {
+		case handledData > 0 && kinds[p.victim] == "data":
+			ev.Class(e.group, "deadline:partial-data-merged,a-node-with-data-missing", 1)
+		case handledData > 0:
+			ev.Class(e.group, "deadline:all-data-merged,a-node-without-data-missing", 1)
+		default:
+			ev.Class(e.group, "deadline:no-data-merged", 1)
+		}
+		if !strings.Contains(err.Error(), "timeout") {
+			ev.Class(e.group, "info:deadline:the-query-fails-with-another-error-than-timeout", 1)
+		}
+	}
 }
 
 // emptyOrderBy: an order by item that is a plain field is resolved by the root through the field list of the
